@@ -14,6 +14,8 @@ pub mod wrap;
 pub mod codecs;
 pub mod derive;
 pub mod typed;
+pub mod accessors;
+pub mod acc_gen;
 pub mod typed_tables;
 
 #[derive(Serialize, Deserialize, Default, Debug, Clone)]
@@ -104,6 +106,7 @@ pub fn record(stage: &str, args: &[String]) {
     match stage {
         "deb822_edit" => edit::record(args),
         "wrap" => wrap::record(args),
+        "accessors" => accessors::record(args),
         _ => {
             eprintln!("no recorder for stage {}", stage);
             std::process::exit(2);
